@@ -106,6 +106,14 @@ class C04(Check):
         elif arm == "lazy":
             ops = gen.gen_program(rng, gen.MIX_GENERAL, rng.randint(8, 20), "small")
             thr, lazy, nsched = 64, 1, 3
+        elif arm == "lattice":
+            ops = gen.gen_program(rng, gen.MIX_LATTICE, rng.randint(6, 18), "small", ["lbox:0,0,0,1,1,1", "lbox:1,0,0,0,0,0"])
+            thr, lazy, nsched = rng.choice([64, 16]), 0, 3
+        elif arm == "cells":
+            big = rng.random() < 0.25
+            ops = [gen.gen_op(rng, "cellrow", "big" if big else "small") for _ in range(rng.randint(1, 3))]
+            ops += gen.gen_program(rng, gen.MIX_LATTICE, rng.randint(2, 6), "small", ["lbox:0,0,0,1,1,1"])[1:]
+            thr, lazy, nsched = (1 if big else rng.choice([64, 16])), 0, 4
         elif arm == "2d":
             ops = gen.gen_program(rng, gen.MIX_2D, rng.randint(8, 20), rng.choice(["small", "big"]))
             thr, lazy, nsched = rng.choice([1, 64]), 0, 2
@@ -141,7 +149,7 @@ class C04(Check):
         while self.time_left() > (20 if quick else 60):
             rounds += 1
             cases = []
-            arms = (["small"] * 24 + ["lazy"] * 6 + ["2d"] * 6 + ["medium"] * 4 + ["big"] * (5 if quick else 8))
+            arms = (["small"] * 20 + ["lattice"] * 8 + ["cells"] * 8 + ["lazy"] * 6 + ["2d"] * 6 + ["medium"] * 4 + ["big"] * (5 if quick else 8))
             for arm in arms:
                 cases.append(self.make_case(rng, arm))
             jobs = []
@@ -201,18 +209,49 @@ class C04(Check):
                         samples.append({"arm": case["arm"], "program": gen.prog_text(case["ops"])[:400], "par_args": j["args"] and {
                             k: j["args"][k] for k in ("W", "stay", "own", "seed", "thr")}, "decisions": sim["steps"], "steals": sim["steals"],
                             "decision_hash": sim["hash"]})
-        # confirm candidates (lowered thresholds) at shipped thresholds
+        # confirm candidates (lowered thresholds) at shipped thresholds: all scale-up runs of all
+        # candidates go through the pool in one batch
         unconfirmed = []
         seen = set()
+        todo = []
         for key, desc, replay, step in candidates:
             ks = key_str(key)
             if ks in seen or ks in self.findings_by_key:
                 self.finding_counts[ks] = self.finding_counts.get(ks, 0) + 1
                 continue
             seen.add(ks)
-            conf = self.confirm_at_shipped(key, replay, step)
-            if conf:
-                self.add_finding(key, desc + " [confirmed at shipped thresholds]", conf)
+            todo.append((key, desc, replay, step))
+        todo = todo[:12]
+        jobs = []
+        crng = random.Random(self.seed + 991)
+        for ci, (key, desc, replay, step) in enumerate(todo):
+            for ti, prog in enumerate(self.scale_up_programs(replay, step)):
+                jobs.append({"flavour": "ser", "kind": "prog", "args": {"prog": prog, "thr": 1, "maxtri": 400000}, "timeout": 600,
+                             "cand": ci, "try": ti, "role": "ref"})
+                for _ in range(3):
+                    pa = {"W": crng.choice([2, 4, 8]), "stay": crng.choice([30, 60]), "own": 70, "seed": crng.randrange(1, 1 << 30), "thr": 1}
+                    jobs.append({"flavour": "par", "kind": "prog", "args": dict({"prog": prog, "maxtri": 400000}, **pa), "timeout": 600,
+                                 "cand": ci, "try": ti, "role": "par", "pa": pa, "prog": prog})
+        res = self.pool.run_all(jobs) if jobs else []
+        confirmed = {}
+        refs = {}
+        for j, r in zip(jobs, res):
+            if j["role"] == "ref" and r.get("ok"):
+                refs[(j["cand"], j["try"])] = r["res"]
+        for j, r in zip(jobs, res):
+            if j["role"] != "par" or not r.get("ok") or j["cand"] in confirmed:
+                continue
+            ref = refs.get((j["cand"], j["try"]))
+            if ref is None:
+                continue
+            key = todo[j["cand"]][0]
+            for (s_, o, f) in compare(ref, r["res"], None):
+                if gen.op_kind(o) == key["op_kind"]:
+                    confirmed[j["cand"]] = {"property": "C04", "program": j["prog"], "lazy": 0, "par_args": j["pa"], "maxtri": 400000, "arm": "confirm"}
+                    break
+        for ci, (key, desc, replay, step) in enumerate(todo):
+            if ci in confirmed:
+                self.add_finding(key, desc + " [confirmed at shipped thresholds]", confirmed[ci])
             else:
                 unconfirmed.append({"key": key, "desc": desc, "replay": replay})
         self.cov.update({
@@ -222,7 +261,7 @@ class C04(Check):
                     "at least one task was stolen (the schedule differs from serial order)",
             "samples": samples, "distinct_decision_hashes": len(hashes), "W_histogram": whist, "arms": armcount,
             "op_counts": opcount, "totals": stats, "rounds": rounds,
-            "threshold_modes": "arms small/lazy: thresholds/64; medium: /16; big and half of 2d: shipped thresholds on meshes above them",
+            "threshold_modes": "arms small/lazy/lattice: thresholds/64 (or /16); medium: /16; cells: /64, /16 or shipped on 2500-5500-cell meshes; big and half of 2d: shipped thresholds on meshes above them",
             "unconfirmed_candidates_lowered_thresholds": unconfirmed[:20],
             "components": {"real": "manifold library, oneTBB header templates (parallel_for/reduce/scan/invoke, task_group, combinable, "
                                    "concurrent containers)", "stub": "oneTBB runtime scheduler (simtbb)"},
@@ -238,15 +277,13 @@ class C04(Check):
         self.add_finding(key, "worker died (%s) running a C04 program in flavour %s: %s" % (cls, job["flavour"], simdrv.crash_summary(r)),
                          {"property": "C04", "crash": True, "flavour": job["flavour"], "args": job["args"]})
 
-    def confirm_at_shipped(self, key, replay, step):
-        """Scale the diverging op up to meshes above the shipped thresholds."""
+    def scale_up_programs(self, replay, step):
+        """Programs that apply the diverging op to meshes above the shipped thresholds."""
         ops = replay["program"].split(";")
         if step >= len(ops):
-            return None
+            return []
         op = ops[step]
-        tries = []
-        tries.append(BIG_PREFIX + [op])
-        # also the whole program prefix with big constructors
+        tries = [";".join(BIG_PREFIX + [op])]
         big = []
         for o in ops[:step + 1]:
             if o.startswith("sphere:"):
@@ -254,22 +291,8 @@ class C04(Check):
                 big.append("sphere:%s,66" % a[0])
             else:
                 big.append(o)
-        tries.append(big)
-        rng = random.Random(1234)
-        for t in tries:
-            prog = ";".join(t)
-            ref = self.run_job({"flavour": "ser", "kind": "prog", "args": {"prog": prog, "thr": 1, "maxtri": 400000}, "timeout": 900})
-            if not ref["ok"]:
-                continue
-            for _ in range(3):
-                pa = {"W": rng.choice([2, 4, 8]), "stay": rng.choice([30, 60]), "own": 70, "seed": rng.randrange(1, 1 << 30), "thr": 1}
-                r = self.run_job({"flavour": "par", "kind": "prog", "args": dict({"prog": prog, "maxtri": 400000}, **pa), "timeout": 900})
-                if not r["ok"]:
-                    continue
-                for (s, o, f) in compare(ref["res"], r["res"], None):
-                    if gen.op_kind(o) == key["op_kind"]:
-                        return {"property": "C04", "program": prog, "lazy": 0, "par_args": pa, "maxtri": 400000, "arm": "confirm"}
-        return None
+        tries.append(";".join(big))
+        return tries
 
     def reproduce(self, replay, fresh=False):
         if replay.get("crash"):
